@@ -3,11 +3,20 @@
    Notation: cs = flattened connect clauses in order (any list, any length);
    flow_pairs cs / pot_pairs cs = the pairs of flow keys (name, inside?) / potential names they
    connect; eqv = equivalence closure (Lib/Closure.v); valuations ρ : var → Qc (exact rationals). *)
-From stdpp Require Import gmap.
-From Coq Require Import QArith Qcanon.
-From PV Require Import Lib.Closure Model.C09_connect Proofs.C09_connect.
+From stdpp Require Import gmap strings.
+From Coq Require Import QArith Qcanon Ascii String.
+From PV Require Import Lib.Closure Lib.DotJoin Model.C09_connect Proofs.C09_connect Proofs.C09_names.
 Close Scope Qc_scope.
 Close Scope Q_scope.
+Close Scope string_scope.
+
+(* The first five theorems hold for EVERY way of building flattened names (class Naming: Sg = name
+   segment, N = flattened name): structured paths and dot-joined strings alike.  The string-level
+   theorems below add what makes the string names faithful. *)
+Section Generic.
+Context {Sg N : Type} `{Countable N} `{!Naming Sg N}.
+Local Notation var := N.
+Local Notation fclause := ((N * bool) * (N * bool) * list (Sg * kind))%type.
 
 (* the distinct set objects left in flow_connections are duplicate free, pairwise disjoint, each is
    the closure class of a mentioned key, every mentioned key lies in one, and two keys share a set
@@ -21,7 +30,6 @@ Theorem C09_partition (flows : list var) (cs : list fclause) :
   (∀ k, mentioned P k → ∃ S, S ∈ sets ∧ k ∈ S) ∧
   (∀ a b, mentioned P a → (∃ S, S ∈ sets ∧ a ∈ S ∧ b ∈ S) ↔ eqv P a b).
 Proof. exact (partition_correct flows cs). Qed.
-Print Assumptions C09_partition.
 
 (* a valuation satisfies the generated flow equations iff every closure class of a mentioned key
    (however enumerated, duplicate free) has signed sum zero, inside +, outside −, and every flow
@@ -32,24 +40,21 @@ Theorem C09_flow (flows : list var) (cs : list fclause) (ρ : var → Qc) :
           ssum ρ l = 0%Qc) ∧
   (∀ n, n ∈ flows → (∀ k, mentioned (flow_pairs cs) k → k.1 ≠ n) → ρ n = 0%Qc).
 Proof. exact (flow_correct flows cs ρ). Qed.
-Print Assumptions C09_flow.
 
 (* it satisfies the generated equalities iff it is constant on every closure class of the
    connected potential variables *)
 Theorem C09_potential (cs : list fclause) (ρ : var → Qc) :
   sat ρ (pot_eqs cs) ↔ ∀ a b, eqv (pot_pairs cs) a b → ρ a = ρ b.
 Proof. exact (pot_correct cs ρ). Qed.
-Print Assumptions C09_potential.
 
 (* end to end on the hierarchical input: for every instance tree (any nesting depth, any clauses)
    the rows the model of flatten + expand_connectors emits have exactly the solutions of the
    connection semantics of its flattened clauses, with the inside/outside flag of tree.py:676-679 *)
-Theorem C09_model_rows (i : inst) (ρ : var → Qc) :
+Theorem C09_model_rows (i : inst Sg) (ρ : var → Qc) :
   sat ρ (model_rows i) ↔
   pot_spec (pot_pairs (flat_clauses [] i)) ρ ∧
   flow_spec (flat_flows [] i) (flow_pairs (flat_clauses [] i)) ρ.
 Proof. exact (expand_correct (flat_flows [] i) (flat_clauses [] i) ρ). Qed.
-Print Assumptions C09_model_rows.
 
 (* value-level form of the object-sharing invariant: every present key is a member of the set it
    points to and every member of that set points to the same set *)
@@ -57,37 +62,115 @@ Theorem C09_sharing_invariant (flows : list var) (cs : list fclause) :
   let m := fc (run_clauses flows cs) in
   ∀ k S, m !! k = Some S → k ∈ S ∧ ∀ v, v ∈ S → m !! v = Some S.
 Proof. exact (sharing_invariant flows cs). Qed.
+End Generic.
+Print Assumptions C09_partition.
+Print Assumptions C09_flow.
+Print Assumptions C09_potential.
+Print Assumptions C09_model_rows.
 Print Assumptions C09_sharing_invariant.
 
 (* non-vacuity: model M  Comp a(4), b(5);  Pin t(3);  connect(a.p, b.n); connect(t, a.n);
    connect(b.n, t)  — one merged set of four keys with an outside connector — has a solution with
    non-zero flows, and the valuation that is 1 everywhere is not a solution *)
-Definition ex_pin : cvars := [(10%positive, KPot); (11%positive, KFlow); (12%positive, KPar)].
-Definition ex_comp : inst := Inst [(1%positive, ex_pin); (2%positive, ex_pin)] [] [].
-Definition ex_m : inst :=
+Definition ex_pin : list (positive * kind) := [(10%positive, KPot); (11%positive, KFlow); (12%positive, KPar)].
+Definition ex_comp : inst positive := Inst [(1%positive, ex_pin); (2%positive, ex_pin)] [] [].
+Definition ex_m : inst positive :=
   Inst [(3%positive, ex_pin)] [(4%positive, ex_comp); (5%positive, ex_comp)]
        [Clause (CRef (Some 4%positive) 1%positive) (CRef (Some 5%positive) 2%positive) ex_pin;
         Clause (CRef None 3%positive) (CRef (Some 4%positive) 2%positive) ex_pin;
         Clause (CRef (Some 5%positive) 2%positive) (CRef None 3%positive) ex_pin].
-Definition ex_rho (v : var) : Qc :=
+Definition ex_rho (v : list positive) : Qc :=
   if decide (v = [3; 11]%positive) then Q2Qc (5 # 2)
   else if decide (v = [4; 1; 11]%positive) then Q2Qc (3 # 2)
   else if decide (v = [4; 2; 11]%positive) then 1%Qc
   else 0%Qc.
 
+Definition ex_rows : list (list (list positive * Z)) := model_rows ex_m.
+Definition ex_sets : list (list (list positive * bool)) := model_sets ex_m.
+Definition ones (_ : list positive) : Qc := 1%Qc.
+
 Example C09_example :
-  length (model_sets ex_m) = 1 ∧ sat ex_rho (model_rows ex_m) ∧ ¬ sat (fun _ => 1%Qc) (model_rows ex_m).
+  List.length ex_sets = 1%nat ∧ sat ex_rho ex_rows ∧ ¬ sat ones ex_rows.
 Proof.
   split; [vm_compute; reflexivity|]. split.
   - unfold sat. apply Forall_forall. intros r Hr.
-    assert (Hb : forallb (fun r => Qeq_bool (Qcanon.this (eval ex_rho r)) 0%Q) (model_rows ex_m) = true)
+    assert (Hb : forallb (fun r => Qeq_bool (Qcanon.this (eval ex_rho r)) 0%Q) ex_rows = true)
       by (vm_compute; reflexivity).
     rewrite forallb_forall in Hb. apply elem_of_list_In in Hr. specialize (Hb r Hr).
     apply Qc_is_canon. apply Qeq_bool_eq in Hb. exact Hb.
   - unfold sat. rewrite Forall_forall. intros Hall.
-    assert (Hb : existsb (fun r => negb (Qeq_bool (Qcanon.this (eval (fun _ => 1%Qc) r)) 0%Q)) (model_rows ex_m) = true)
+    assert (Hb : existsb (fun r => negb (Qeq_bool (Qcanon.this (eval ones r)) 0%Q)) ex_rows = true)
       by (vm_compute; reflexivity).
     apply existsb_exists in Hb as (r & Hr & Hb). apply elem_of_list_In in Hr.
     specialize (Hall r Hr). rewrite Hall in Hb. vm_compute in Hb. discriminate Hb.
 Qed.
 Print Assumptions C09_example.
+
+(* ---------------- string level: names as pymoca holds them ---------------- *)
+(* join with a separator is injective on paths whose segments are non-empty and separator free *)
+Theorem C09_join_injective (p q : list (list ascii)) :
+  path_ok dot p → path_ok dot q → sjoin p = sjoin q → p = q.
+Proof. exact (join_inj dot p q). Qed.
+Print Assumptions C09_join_injective.
+
+(* "p is a proper prefix of q on segments"  iff  join q startswith (join p + ".") *)
+Theorem C09_prefix_with_separator (p q : list (list ascii)) :
+  path_ok dot p → path_ok dot q → p ≠ [] →
+  (sjoin p ++ [dot]) `prefix_of` sjoin q ↔ ∃ r, r ≠ [] ∧ q = p ++ r.
+Proof. exact (prefix_sep_iff dot p q). Qed.
+Print Assumptions C09_prefix_with_separator.
+
+(* the variant without the trailing separator is wrong: "port1" is a string prefix of "port10.i"
+   although [port1] is not a segment prefix of [port10; i] *)
+Theorem C09_bare_prefix_refuted :
+  ∃ conn fv q, name_ok conn ∧ seg_ok dot fv ∧ name_ok q ∧
+    hits TPrefixBare conn fv (sjoin q) = true ∧ ¬ conn `prefix_of` q.
+Proof. exact bare_test_refuted. Qed.
+Print Assumptions C09_bare_prefix_refuted.
+
+(* the name test the tie accepts at the zero-default bookkeeping site (exact key conn + "." + var,
+   separator '.') removes exactly the entry of that flow variable *)
+Theorem C09_name_test_sound (t : name_test) (sep : ascii) :
+  accepted t sep = true →
+  sep = dot ∧ ∀ conn fv q, name_ok conn → seg_ok dot fv → name_ok q →
+    hits t conn fv (sjoin q) = true ↔ q = conn ++ [fv].
+Proof. exact (accepted_sound t sep). Qed.
+Print Assumptions C09_name_test_sound.
+
+(* string-level connection sets: two string keys share a set iff the STRUCTURED keys are related
+   by the equivalence closure of the structured connect pairs *)
+Theorem C09_string_partition (flows : list (list ascii)) (cs : list fclauseP) (a b : list (list ascii) * bool) :
+  Forall clause_ok cs → mentioned (flow_pairs cs) a → name_ok b.1 →
+  (∃ S, S ∈ sets_of (fc (run_clauses flows (map renC cs))) ∧ keyS a ∈ S ∧ keyS b ∈ S) ↔
+  eqv (flow_pairs cs) a b.
+Proof. exact (string_level_partition flows cs a b). Qed.
+Print Assumptions C09_string_partition.
+
+(* end to end at string level: for every instance tree whose identifiers are non-empty and contain
+   no '.', the rows emitted when names are dot-joined strings compared as strings have exactly the
+   solutions of the connection semantics over the structured names (valuation read through join) *)
+Theorem C09_string_model_rows (i : inst (list ascii)) (ρ : list ascii → Qc) :
+  inst_ok i →
+  sat ρ (rowsS i) ↔
+  pot_spec (pot_pairs (fcP [] i)) (ρ ∘ sjoin) ∧
+  flow_spec (ffP [] i) (flow_pairs (fcP [] i)) (ρ ∘ sjoin).
+Proof. exact (string_model_rows_correct i ρ). Qed.
+Print Assumptions C09_string_model_rows.
+
+(* non-vacuity at string level: top-level connectors port1 (connected to t) and port10 (not
+   connected); identifiers are legal, and the string-level rows contain port10.i = 0 *)
+Definition ex_spin : list (list ascii * kind) := [(lit "v", KPot); (lit "i", KFlow)].
+Definition ex_s : inst (list ascii) :=
+  Inst [(lit "port1", ex_spin); (lit "port10", ex_spin); (lit "t", ex_spin)] []
+       [Clause (CRef None (lit "port1")) (CRef None (lit "t")) ex_spin].
+Example C09_string_example :
+  inst_ok ex_s ∧ zero_row (lit "port10.i") ∈ rowsS ex_s ∧ zero_row (lit "port1.i") ∉ rowsS ex_s.
+Proof.
+  split.
+  { simpl. unfold vars_ok, ex_spin.
+    repeat first [ apply seg_okb_ok; vm_compute; reflexivity | split | constructor ]. }
+  split.
+  - apply (bool_decide_unpack _). by vm_compute.
+  - apply (bool_decide_unpack _). by vm_compute.
+Qed.
+Print Assumptions C09_string_example.
